@@ -17,6 +17,53 @@ pub proof fn lemma_last_one(s: Set<int>, d: Set<int>, x: int)
     }
 }
 
+/// overwriting the value of a stored entry keeps "at most one entry per key"
+pub proof fn lemma_unique_overwrite<K, V>(c: Multiset<(K, V)>, e: (K, V))
+    requires kv_unique(c), c.count(e) > 0,
+    ensures forall|v: V| kv_unique(#[trigger] c.remove(e).insert((e.0, v))) //@ lemma_unique_overwrite C01,C13
+{
+    axiom_key_eq_equivalence::<K, K>();
+    assert forall|v: V| kv_unique(#[trigger] c.remove(e).insert((e.0, v))) by {
+        let d = c.remove(e).insert((e.0, v));
+        assert forall|x: (K, V)| #[trigger] d.count(x) <= 1 by {
+            if x == (e.0, v) && c.count(x) > 0 && x != e { assert(key_eq::<K, K>(&x.0, &e.0)); }
+        }
+        assert forall|x: (K, V), y: (K, V)| #[trigger] d.count(x) > 0 && #[trigger] d.count(y) > 0 && key_eq::<K, K>(&x.0, &y.0) implies x == y by {
+            if x != y {
+                if x == (e.0, v) { assert(c.count(y) > 0); assert(key_eq::<K, K>(&e.0, &y.0)); assert(c.count(e) > 0); }
+                else if y == (e.0, v) { assert(c.count(x) > 0); assert(key_eq::<K, K>(&x.0, &e.0)); }
+                else { assert(c.count(x) > 0 && c.count(y) > 0); }
+            }
+        }
+    }
+}
+
+/// replacing a stored entry's key by an equal key (and its value by any value) keeps "at most one entry per key"
+pub proof fn lemma_unique_replace<K, V>(c: Multiset<(K, V)>, e: (K, V), k: K)
+    requires kv_unique(c), c.count(e) > 0, key_eq::<K, K>(&k, &e.0),
+    ensures forall|v: V| kv_unique(#[trigger] c.remove(e).insert((k, v))) //@ lemma_unique_replace C01,C13
+{
+    axiom_key_eq_equivalence::<K, K>();
+    assert forall|v: V| kv_unique(#[trigger] c.remove(e).insert((k, v))) by {
+        let d = c.remove(e).insert((k, v));
+        // anything else in `c` whose key equals `k` would have a key equal to `e`'s, i.e. would be `e`
+        assert forall|x: (K, V)| c.count(x) > 0 && key_eq::<K, K>(&x.0, &k) implies x == e by {
+            assert(key_eq::<K, K>(&k, &x.0));
+            assert(key_eq::<K, K>(&x.0, &e.0));
+        }
+        assert forall|x: (K, V)| #[trigger] d.count(x) <= 1 by {
+            if x == (k, v) && c.count(x) > 0 && x != e { assert(key_eq::<K, K>(&x.0, &k)); }
+        }
+        assert forall|x: (K, V), y: (K, V)| #[trigger] d.count(x) > 0 && #[trigger] d.count(y) > 0 && key_eq::<K, K>(&x.0, &y.0) implies x == y by {
+            if x != y {
+                if x == (k, v) { assert(c.remove(e).count(y) > 0); assert(key_eq::<K, K>(&y.0, &k)); }
+                else if y == (k, v) { assert(c.remove(e).count(x) > 0); assert(key_eq::<K, K>(&x.0, &k)); }
+                else { assert(c.count(x) > 0 && c.count(y) > 0); }
+            }
+        }
+    }
+}
+
 pub open spec fn st_cap(s: St) -> nat { s.n + s.g }
 pub open spec fn st_len(s: St) -> nat { s.n + s.l }
 
